@@ -610,14 +610,16 @@ def check_k5(chk, m, cfg):
     test = None
     for i in fn.real_insts():
         if i.op == "icmp" and i.pred in ("ne", "eq"):
-            ld = i.ops[0].inst
-            if ld is not None and ld.op == "load":
-                try:
-                    pp = flow.resolve_ptr(ld.ops[0], m)
-                except AnalysisError:
-                    continue
-                if pp.root.k == "global" and pp.root.name == "cmd_table" and pp.off == last[1] and not pp.var and i.ops[1].is_null():
-                    test = i
+            # (either operand order: `cmd_table[last] != NULL` and `NULL != cmd_table[last]`)
+            for a_, b_ in ((i.ops[0], i.ops[1]), (i.ops[1], i.ops[0])):
+                ld = a_.inst if a_.k == "inst" else None
+                if ld is not None and ld.op == "load" and b_.is_null():
+                    try:
+                        pp = flow.resolve_ptr(ld.ops[0], m)
+                    except AnalysisError:
+                        continue
+                    if pp.root.k == "global" and pp.root.name == "cmd_table" and pp.off == last[1] and not pp.var:
+                        test = i
     stores = [a for a in flow.accesses(fn, m) if a.writes and a.ptr.root.k == "global" and a.ptr.root.name == "cmd_table"]
     if test is None:
         chk.ob("K5.full-test", "console_register[%s]" % cfg, False, "no test of the last table slot before inserting", fn.loc, fn.name)
